@@ -10,9 +10,12 @@ import (
 // Shape validator for JDoc Exchange 2.0.0, written from the format's layout.
 
 type shapeV struct {
-	errs  []string
-	nodes int
-	kinds map[string]int
+	errs          []string
+	nodes         int
+	kinds         map[string]int
+	examples      int
+	docEscapedKey bool // some schema of the catalog has a property key that needs escaping in a JSON text
+	badExamples   map[string]int
 }
 
 func (s *shapeV) errf(rule, format string, a ...interface{}) {
@@ -22,9 +25,11 @@ func (s *shapeV) errf(rule, format string, a ...interface{}) {
 }
 
 type ShapeReport struct {
-	Errors    []string // "<rule>: detail"
-	Nodes     int
-	NodeKinds map[string]int
+	Errors      []string // "<rule>: detail"
+	Nodes       int
+	NodeKinds   map[string]int
+	Examples    int            // jsight examples parsed as JSON
+	BadExamples map[string]int // jsight examples that are not a JSON text, by class (observation, not a verdict)
 }
 
 var topKeys = map[string]bool{"tags": true, "info": true, "servers": true, "userTypes": true, "userEnums": true,
@@ -73,6 +78,7 @@ func ValidateShape(root interface{}) ShapeReport {
 		s.errf("top", "document is not an object")
 		return ShapeReport{Errors: s.errs}
 	}
+	s.docEscapedKey = anyEscapedKey(top)
 	for _, k := range top.Keys {
 		if !topKeys[k] {
 			s.errf("unknown-key", "top level has unexpected key %q", k)
@@ -197,7 +203,7 @@ func ValidateShape(root interface{}) ShapeReport {
 			}
 		}
 	}
-	return ShapeReport{Errors: s.errs, Nodes: s.nodes, NodeKinds: s.kinds}
+	return ShapeReport{Errors: s.errs, Nodes: s.nodes, NodeKinds: s.kinds, Examples: s.examples, BadExamples: s.badExamples}
 }
 
 func (s *shapeV) tags(where string, tags *Obj) {
@@ -423,6 +429,28 @@ func (s *shapeV) schema(w string, v interface{}, wantNotation string) string {
 			s.content(w+".content", c, false)
 		}
 		optStr(s, w, o, "example")
+		// the example of a jsight schema is a JSON text
+		if ex, ok := o.M["example"].(string); ok && ex != "" {
+			if _, err := ParseJSON([]byte(ex)); err != nil {
+				// Not a rule of the shape the property names (that one speaks of the fields and of the typing of schema nodes): counted.
+				class := "other"
+				switch {
+				case hasEscapedKey(c) || s.docEscapedKey:
+					class = "key-that-needs-escaping"
+				case strings.HasPrefix(ex, "@") && strings.Contains(ex, "|"):
+					class = "union-text-instead-of-a-value"
+				case strings.Contains(ex, ",}") || strings.Contains(ex, ",]"):
+					class = "comma-before-closing-bracket-after-recursion-cut"
+				}
+				if s.badExamples == nil {
+					s.badExamples = map[string]int{}
+				}
+				s.badExamples[class]++
+				_ = err
+			} else {
+				s.examples++
+			}
+		}
 		s.strArr(w, o, "usedUserTypes", false)
 		s.strArr(w, o, "usedUserEnums", false)
 	case "regex":
@@ -806,4 +834,56 @@ func CrossRef(root interface{}) XRefReport {
 		}
 	}
 	return rep
+}
+
+// hasEscapedKey: some property key of the content (at any depth) holds a character that a JSON text must escape.
+func hasEscapedKey(v interface{}) bool {
+	o, ok := v.(*Obj)
+	if !ok {
+		return false
+	}
+	if k, ok := o.M["key"].(string); ok {
+		for i := 0; i < len(k); i++ {
+			if k[i] == '"' || k[i] == '\\' || k[i] < 0x20 {
+				return true
+			}
+		}
+	}
+	if ch, ok := o.M["children"].([]interface{}); ok {
+		for _, c := range ch {
+			if hasEscapedKey(c) {
+				return true
+			}
+		}
+	}
+	return false
+}
+
+func truncStr(s string, n int) string {
+	if len(s) > n {
+		return s[:n] + "…"
+	}
+	return s
+}
+
+// anyEscapedKey walks the whole catalog.
+func anyEscapedKey(v interface{}) bool {
+	switch x := v.(type) {
+	case *Obj:
+		if hasEscapedKey(x) {
+			return true
+		}
+		for _, k := range x.Keys {
+			if anyEscapedKey(x.M[k]) {
+				return true
+			}
+		}
+	case []interface{}:
+		for _, e := range x {
+			if anyEscapedKey(e) {
+				return true
+			}
+		}
+	}
+	return false
 }
